@@ -790,3 +790,13 @@ class date_add_days:
             return vec_inferred([None if (s is None or y is None) else _date.fromordinal(s.toordinal() + y)
                                  for s, y in zip(self._underlying, other._underlying)], None, False)
         return vec_inferred([None if s is None else _date.fromordinal(s.toordinal() + other) for s in self._underlying], None, False)
+
+
+# ------------------------------------------------------------------ empty operands (R7_C18_a)
+@contract('serif.vector.Vector._elementwise_operation', props=['C18', 'C05'], variant='empty')
+class elementwise_operation_empty(elementwise_operation):
+    """C18/C05 for EMPTY operands: the result of arithmetic on empty vectors is an empty, UNNAMED
+    vector typed by inference, like every other arithmetic result."""
+
+    def requires(self, other):
+        return _operand_ok(other) and len(self._underlying) == 0
